@@ -10,6 +10,12 @@ CLAIMED={
         "Keys with two unsuperseded live values (merge conflict) are outside the oracle; trusts the parent-side tar/protobuf/JSON decoders.",T+"seeded history search + relational (range vs point) oracle","DESIGN.md 7/C05"),
  "C07":("exploration","Seeded sequences of repo-level requests with every argument kind of the quantifier (fresh/duplicate/malformed/empty UUIDs and branch names; committed/open/unknown/repeated/foreign parents; HTTP and RPC), with restarts; graph invariants are evaluated on GET /api/repos/info after every request, a rejected request must leave the normalised graph unchanged, and a restart must reload the same graph.",
         "Duplicate parent links of one merge are not counted as malformed (the statement does not forbid them). Master-branch linearity is only required of nodes created by branch/new-version requests.",T+"seeded request-sequence search + invariant oracle after every step","DESIGN.md 7/C07"),
+ "C03":("exploration","Seeded histories of acknowledged operations with 1-3 restarts (real clean shutdown under the fake clock, or abrupt exit at idle) where the next lifetime is a fresh OS process on the same directories; the complete observable snapshot before the stop must equal the one after start-up, and the reference model keeps running across the restart so rebuilt state must behave like the state it replaced.",
+        "Workload currently covers repo/DAG, key-value, notes/logs, instance creation and the JSON mutation log; JSON null vs empty containers are treated as equal; mutation-id counters are excluded as the statement allows.",T+"seeded history search with restart faults + snapshot-equality and model oracles","DESIGN.md 7/C03"),
+ "C04":("fault_enumeration","For every sampled short workload, EVERY mutating store/log call of every operation is a crash point (before and after), each followed by a fresh-process start-up (a sample with a second crash during recovery): start-up must succeed, graph invariants hold, the snapshot equals the fault-free snapshot before or after the interrupted operation, the retried operation and the rest of the workload succeed, acknowledged writes and mutation-log records are all present; JSON mutation logs are cut inside their last record.",
+        "Crash = process death (os.Exit in the wrapping engine); crash points are DVID->store calls, not single Badger transactions; workloads are sampled (repo-level and single-key operations).",T+"exhaustive crash-point enumeration per sampled workload + recovery oracles","DESIGN.md 7/C04"),
+ "C11":("exploration","Concurrent batches of 2-4 colliding requests interleaved by the seeded scheduler at every storage call and every Badger transaction; key-value histories are checked for linearizability with porcupine against a per-key register model; concurrent new-version/branch/commit/merge requests are checked against the graph invariants (one child per branch, every acknowledged child present).",
+        "Interleavings are decided at DVID->store calls and Badger transaction starts; porcupine Unknown is inconclusive; compound types (annotations, label merges/cleaves, neuron annotations) are added as their models are built.",T+"seeded schedule search + linearizability checking (porcupine) + invariant oracles","DESIGN.md 7/C11"),
 }
 NA={
  "C09":"pure function of its input at package level (block codec): no schedule, clock, fault, crash point or history for a simulator to decide (DESIGN.md section 8)",
